@@ -45,7 +45,8 @@ Inductive act :=
 | ASeenWriteAll                      (* the same with the last line of a rebuild *)
 | AUnsupHas (c : cid)                (* local_names_match: if clazz in self.unsupported: *)
 | AUnsupAdd (c : cid)                (* local_names_match: self.unsupported.add(clazz) *)
-| ACacheGetDiff (c : cid).           (* find_type_by_fields.get_field_diff: meta = self.cache[clazz] *)
+| ACacheGetDiff (c : cid)            (* find_type_by_fields.get_field_diff: meta = self.cache[clazz] *)
+| ACacheHasRec (c : cid).            (* build_recursive: if clazz not in self.cache: *)
 
 Inductive aans :=
 | RBool (b : bool) | RMeta (o : option meta) | RNum (n : N) | RClss (l : list cid) | RUnit
@@ -78,6 +79,7 @@ Definition do_act (w : world) (st : sstate) (a : act) : sstate * aans :=
   | AUnsupHas c => (st, RBool (memN c (s_unsup st)))
   | AUnsupAdd c => (mkS (s_cache st) (s_xsi st) (s_seen st) (if memN c (s_unsup st) then s_unsup st else s_unsup st ++ [c]), RUnit)
   | ACacheGetDiff c => (st, RMeta (cache_get (s_cache st) c))
+  | ACacheHasRec c => (st, RBool (match cache_get (s_cache st) c with Some _ => true | None => false end))
   end.
 
 (* label of an action: which marked source line it is (for the replay on the
@@ -87,6 +89,7 @@ Definition act_label (a : act) : nat :=
   | ACacheHas _ => 1 | ACacheSet _ _ => 2 | ACacheGet _ => 3 | ASeenRead => 4 | AXsiPublish _ => 5
   | ASeenWrite => 7 | AXsiHas _ => 8 | AXsiRef _ => 9 | AStoreFail _ => 2
   | ASeenReadAll => 4 | ASeenWriteAll => 7 | AUnsupHas _ => 12 | AUnsupAdd _ => 13 | ACacheGetDiff _ => 14
+  | ACacheHasRec _ => 15
   end%nat.
 
 Inductive mscript :=
@@ -208,6 +211,34 @@ Definition m_find_by_fields (w : world) (names : list str) (k : option cid -> ms
     | _ => mbad
     end).
 
+(* XmlContext.build_recursive; the answer is false when XmlContextError escaped *)
+Fixpoint m_build_rec (fuel : nat) (w : world) (c : cid) (pns : ostr) (k : bool -> mscript) : mscript :=
+  match fuel with
+  | O => k true
+  | S f =>
+      MAct (ACacheHasRec c) (fun a =>
+        match a with
+        | RBool true => k true
+        | RBool false =>
+            m_build w c pns (fun om =>
+              match om with
+              | None => k false
+              | Some m =>
+                  (fix loop (vars : list var) : mscript :=
+                     match vars with
+                     | [] => k true
+                     | v :: r =>
+                         match v_type v with
+                         | TCls t => m_build_rec f w t (m_ns m) (fun ok => if ok then loop r else k false)
+                         | _ => loop r
+                         end
+                     end) (m_vars m)
+              end)
+        | _ => mbad
+        end)
+  end.
+Definition rec_fuel (w : world) : nat := S (List.length (w_classes w)).
+
 (* a call-level script as a thread program.  Calls whose concurrent behaviour is
    not cut into actions end the program with a marker (never agreement). *)
 Fixpoint expand (w : world) (s : script) : mscript :=
@@ -222,6 +253,8 @@ Fixpoint expand (w : world) (s : script) : mscript :=
       | CFindSubclass c q => m_find_subclass w c q (fun oc => expand w (k (ACls oc)))
       | CFindByFields names => m_find_by_fields w names (fun oc => expand w (k (ACls oc)))
       | CLocalNamesMatch names c => m_names_match w names c (fun b => expand w (k (ABool b)))
+      | CBuildRecursive c pns => m_build_rec (rec_fuel w) w c pns (fun ok =>
+                                   expand w (k (if ok then AUnit else AErr e_context)))
       | CRegister _ _ => expand w (k AUnit)          (* the parser's own recorder: write-only (C14) *)
       | _ => MRet (RErr e_conc_unsupported [])
       end
@@ -232,7 +265,7 @@ Fixpoint expand (w : world) (s : script) : mscript :=
 Definition supported (c : call) : bool :=
   match c with
   | CBuild _ _ | CFetch _ _ _ | CFindType _ | CFindTypes _ | CFindSubclass _ _ | CRegister _ _
-  | CFindByFields _ | CLocalNamesMatch _ _ => true
+  | CFindByFields _ | CLocalNamesMatch _ _ | CBuildRecursive _ _ => true
   | _ => false
   end.
 Definition ref_lookup (E : list (str * list cid)) (q : str) : list cid :=
@@ -268,6 +301,7 @@ Definition ref_call (w : world) (E : list (str * list cid)) (c : call) : ans :=
   | CFindSubclass c q => ACls (find (subclass_candidate w c) (ref_lookup E q))
   | CFindByFields names => ACls (ref_by_fields w E names)
   | CLocalNamesMatch names c => ABool (ideal_names_match w names c)
+  | CBuildRecursive c pns => match ideal_build w c pns with Some _ => AUnit | None => AErr e_context end
   | _ => AUnit
   end.
 Fixpoint ref_run (w : world) (E : list (str * list cid)) (s : script) : res :=
@@ -347,6 +381,37 @@ Definition index_eqb (a b : list (str * list cid)) : bool :=
 Definition warm_b (w : world) (st : sstate) : bool :=
   N.eqb (s_seen st) (w_modules w) && index_eqb (s_xsi st) (ideal_index w).
 
+(* build_recursive from a class, ignoring the cache (the recursion stops at cached classes, so
+   it visits a subset of this): the requests, and whether every class below the root can be built *)
+Fixpoint rec_reqs (fuel : nat) (w : world) (c : cid) (pns : ostr) : list (cid * meta) :=
+  match fuel with
+  | O => []
+  | S f =>
+      match ideal_build w c pns with
+      | None => []
+      | Some m => (c, m) :: flat_map (fun v => match v_type v with
+                                               | TCls t => rec_reqs f w t (m_ns m)
+                                               | _ => []
+                                               end) (m_vars m)
+      end
+  end.
+Fixpoint rec_closed (fuel : nat) (w : world) (c : cid) (pns : ostr) : bool :=
+  match fuel with
+  | O => true
+  | S f =>
+      match ideal_build w c pns with
+      | None => true
+      | Some m => forallb (fun v => match v_type v with
+                                    | TCls t => rec_closed f w t (m_ns m)
+                                                && match f, ideal_build w t (m_ns m) with
+                                                   | S _, None => false
+                                                   | _, _ => true
+                                                   end
+                                    | _ => true
+                                    end) (m_vars m)
+      end
+  end.
+
 (* the build requests a script makes when every answer is the reference one *)
 Definition call_reqs (w : world) (E : list (str * list cid)) (c : call) : list (cid * meta) :=
   let one := fun c p => match ideal_build w c p with Some m => [(c, m)] | None => [] end in
@@ -365,7 +430,18 @@ Definition call_reqs (w : world) (E : list (str * list cid)) (c : call) : list (
       end
   | CFindByFields _ => flat_map (fun c => one c None) (flat_map snd E)
   | CLocalNamesMatch _ c => one c None
+  | CBuildRecursive c p => rec_reqs (rec_fuel w) w c p
   | _ => []
+  end.
+(* (d) no build_recursive of any thread meets an unbuildable class below its argument *)
+Fixpoint ref_rec_closed (w : world) (E : list (str * list cid)) (s : script) : bool :=
+  match s with
+  | Ret _ => true
+  | Call c k =>
+      if supported c then
+        match c with CBuildRecursive c p => rec_closed (rec_fuel w) w c p | _ => true end
+        && ref_rec_closed w E (k (ref_call w E c))
+      else true
   end.
 Fixpoint ref_reqs (w : world) (E : list (str * list cid)) (s : script) : list (cid * meta) :=
   match s with
@@ -382,4 +458,5 @@ Definition unsup_ok (w : world) (st : sstate) : bool :=
   forallb (fun c => match ideal_build w c None with Some _ => false | None => true end) (s_unsup st).
 Definition conc_guard (w : world) (st : sstate) (progs : list script) : bool :=
   world_ok w && cache_known w (s_cache st) && unsup_ok w st
+  && forallb (ref_rec_closed w (eff_index w st)) progs
   && consistent (s_cache st ++ flat_map (ref_reqs w (eff_index w st)) progs).
